@@ -204,6 +204,16 @@ func (c *Check) judgeDepositPath(pp *PersistPath, bank []*Eff) (bool, string) {
 	case dep.Op == "sdk.Coins.Add" && len(dep.A) == 2 && dep.A[0].Eq(old):
 		d := dep.A[1]
 		if len(bank) == 1 && bank[0].Op == "SendCoinsFromAccountToModule" && termsEq(bank[0].Amount, d) {
+			// the transfer is made by a helper only under conditions of its own: each of them holds on this path (a helper
+			// that leaves early "when the minimum is not enforced" records a deposit it has not taken)
+			for _, g := range bank[0].Guards {
+				if g.T.Op == "ok" || isConstTerm(g.T) {
+					continue
+				}
+				if !pp.Facts.Holds(g.T, !g.Neg) {
+					return false, "top-up: Deposit grows by " + shortTerm(stripSpread(d)) + " but the transfer-in is made only under " + condStr(g.Neg, "¬") + shortTerm(g.T) + ", which this path has not established"
+				}
+			}
 			return true, "top-up: Deposit+" + shortTerm(stripSpread(d)) + " ⇔ transfer-in of the same value"
 		}
 		return false, fmt.Sprintf("top-up: Deposit grows by %s without exactly one transfer-in of that value (custody ops: %d)", shortTerm(d), len(bank))
